@@ -24,15 +24,20 @@ ASSUMPTIONS = [
     "every clause is decided on the exact rational values of the doubles handed to the implementation; when every "
     "weight/size/capacity is an integer or k/4 (exactly representable, float arithmetic on them exact) no tolerance "
     "is used at all",
-    "knapsack with inexact inputs: weight <= capacity is checked as weight <= capacity + 1e-9 + 2^-50*(n+2)*max(1,capacity) "
-    "(the code's own re-check `total_weight > capacity + 1e-9`, plus the rounding of its float summation); an "
-    "OPTIMAL answer is failed only if its value is below the optimum for the capacity SHRUNK by that tolerance "
-    "(hence also below the strict and the tolerant optimum), by more than 1e-9*max(1,|optimum|) when values are inexact",
+    "knapsack with inexact inputs: tolerance t = (n+2)*1e-9*max(1,capacity/100000) + 2^-50*(n+2)*max(1,capacity): the "
+    "slack (n+1)*scaleTol/scale of theorem knapsack_lossless_near_optimal (what the repaired code guarantees when it "
+    "says OPTIMAL, with the source's scaleTol = 1e-9), the code's own re-check `total_weight > capacity + 1e-9`, and "
+    "the rounding of its float sums; weight <= capacity is checked as weight <= capacity + t, and an OPTIMAL answer "
+    "is failed only if its value is below the optimum for the capacity SHRUNK by t (hence also below the strict and "
+    "the tolerant optimum), by more than 1e-9*max(1,|optimum|) when values are inexact",
     "bin packing with inexact inputs: the code keeps `remaining` by float subtraction; each of the <= n subtractions "
     "errs by <= 2^-53*capacity, so an exact load can exceed the capacity by < n*2^-53*capacity without the code seeing it "
     "(and a fit can be refused by the same margin): loads are checked against capacity*(1+n*2^-52); OPT is computed "
     "for capacity*(1-n*2^-52) (an item larger than that is read as filling its bin), capacity and capacity*(1+n*2^-52), and `OPTIMAL not minimal` / the 11/9 bound are "
     "failed only with the LARGEST of the three optima (wrong under every reading)",
+    "_greedy_fallback and _to_int_capacity/_scaled (named in the property's anchors) are also called directly: the "
+    "fallback's answer must be feasible (tolerance capacity*n*2^-52 for inexact inputs: `remaining -= w` in floats) "
+    "and equal to the mirror's; the scaling helpers are compared with the mirror bit for bit",
     "objective = sum of values: exact for dyadic values, otherwise within 1e-9*max(1,|sum|) (float summation)",
     "the floating-point instance of the model (Lean `Float`, same IEEE doubles) is tied by R_trace only; the theorems "
     "are about the same generic code instantiated at Rat (tolerances as parameters, exact statement at 0)",
@@ -187,8 +192,10 @@ def gen_knap(rng, big: bool):
 SPELL = {
     (False, False): ["first-fit", "ff", "first_fit", "FIRST-FIT"],
     (True, False): ["best-fit", "bf", "best_fit", "Best-Fit"],
-    (False, True): ["first-fit-decreasing", "ff-decreasing", "first_fit_decreasing", "FF_DECREASING"],
-    (True, True): ["best-fit-decreasing", "bf-decreasing", "best_fit_decreasing", None],  # None = default
+    (False, True): ["first-fit-decreasing", "ff-decreasing", "first_fit_decreasing", "FF_DECREASING",
+                    "ff-decreasing-decreasing"],
+    (True, True): ["best-fit-decreasing", "bf-decreasing", "best_fit_decreasing", None,  # None = default
+                   "bf-decreasing_decreasing"],
 }
 
 
@@ -211,7 +218,7 @@ def gen_pack(rng, big: bool):
             ck = rng.choice([0, -1])
             sizes = [[0, d, False] for _ in range(n)]
         else:
-            algo = rng.choice(["next-fit", "decreasing", ""])
+            algo = rng.choice(["next-fit", "decreasing", "", "-decreasing", "best fit", "first-fit-increasing"])
         return {"fn": "binpack", "sizes": sizes, "capacity": [ck, d, False], "algorithm": algo, "flags": [ub, dec]}
     n = rng.choice([0, 1, 2, 3, 4, 6, 8, 10, nmax, rng.randint(0, nmax)])
     if big and rng.random() < 0.2:
@@ -266,6 +273,22 @@ def edge_cases():
 # ---------------------------------------------------------------------------
 
 def impl(case):
+    if case["fn"] in ("fallback", "intcap"):
+        try:
+            from solvor.knapsack import _greedy_fallback, _scaled, _to_int_capacity
+        except ImportError:
+            return {"unavailable": True}
+        w = [pyval(x) for x in case["weights"]]
+        c = pyval(case["capacity"])
+        if case["fn"] == "intcap":
+            ic, scale = _to_int_capacity(c, w)
+            return {"int_cap": ic, "scale": core.fbits(float(scale)), "scaled": [list(_scaled(x, scale)) for x in w]}
+        v = [pyval(x) for x in case["values"]]
+        r = _greedy_fallback(v, w, c, case["minimize"])
+        sol = r.solution
+        ok_shape = isinstance(sol, tuple) and all(isinstance(i, int) and not isinstance(i, bool) for i in sol)
+        return {"status": r.status.name, "sol": list(sol) if ok_shape else repr(sol), "shape": ok_shape,
+                "objective": core.rat(r.objective)}
     if case["fn"] == "knapsack":
         from solvor.knapsack import solve_knapsack
         v = [pyval(x) for x in case["values"]]
@@ -299,7 +322,9 @@ def knap_caps(case):
     if all(exact(x) for x in case["weights"] + [case["capacity"]]):
         return [C, C, C]
     n = len(case["weights"])
-    tol = Fraction(1, 10**9) + Fraction(n + 2, 2**50) * max(1, C)
+    # knapsack_lossless_near_optimal: slack (n+1)*1e-9/scale, scale = min(100000/C, 1000) >= 1 iff C <= 100000;
+    # plus the code's own +1e-9 re-check and the rounding of its float sums
+    tol = Fraction(n + 2, 10**9) * max(1, C / 100000) + Fraction(n + 2, 2**50) * max(1, C)
     return [C, C + tol, max(Fraction(0), C - tol)]
 
 
@@ -319,8 +344,23 @@ def pack_readings(case):
     return [(c, [min(s, c) for s in S]) for c in pack_caps(case)]
 
 
+def fallback_cap(case):
+    """`remaining -= w` errs by <= 2^-53*capacity per pick"""
+    C = frac(case["capacity"])
+    if all(exact(x) for x in case["weights"] + [case["capacity"]]):
+        return C
+    return C * (1 + Fraction(len(case["weights"]), 2**52))
+
+
 def to_request(case, out):
-    res = out[1] if out[0] == "ok" and out[1]["shape"] else None
+    if case["fn"] == "intcap":
+        return ["intcap", [bits(x) for x in case["weights"]], bits(case["capacity"])]
+    res = out[1] if out[0] == "ok" and out[1].get("shape") else None
+    if case["fn"] == "fallback":
+        return ["fallback", [rat(x) for x in case["weights"]], [rat(x) for x in case["values"]], fr(fallback_cap(case)),
+                [bits(x) for x in case["weights"]], [bits(x) for x in case["values"]], bits(case["capacity"]),
+                [isinstance(pyval(x), int) for x in case["values"]], bool(case["minimize"]),
+                res["sol"] if res else None]
     if case["fn"] == "knapsack":
         return ["knap", [rat(x) for x in case["weights"]], [rat(x) for x in case["values"]],
                 [fr(c) for c in knap_caps(case)],
@@ -554,8 +594,73 @@ def judge_pack(ctx, case, out, reply):
     ctx.case(canon, n >= 3 and f_k >= 2, {"case": case, "impl": r, "mirror": [f_status, f_asg, f_k], "optimum": opt_hi})
 
 
+def judge_fallback(ctx, case, out, reply):
+    """`_greedy_fallback` called directly (the branch of solve_knapsack taken when scaling overpacks)"""
+    fn = "_greedy_fallback"
+    rep = {"case": case, "impl": out, "model": reply}
+    m_sel, m_objbits, chk = reply
+    canon = ["f", case["values"], case["weights"], case["capacity"], case["minimize"]]
+    if out[0] == "ok" and out[1].get("unavailable"):
+        ctx.count("fallback:unavailable")
+        return
+    ctx.count("fallback:cases")
+    if out[0] != "ok":
+        ctx.fail(fn, "raises:" + err_kind(out), f"valid input raised/timed out: {out[1][:200]}", rep)
+        ctx.case(canon, False)
+        return
+    r = out[1]
+    if not r["shape"]:
+        ctx.fail(fn, "bad_solution_shape", f"solution is not a tuple of ints: {r['sol']}", rep)
+        ctx.case(canon, False)
+        return
+    feas, sel_w, sel_v = chk
+    sel_w, sel_v = core.unrat(sel_w), core.unrat(sel_v)
+    n = len(case["values"])
+    if not feas:
+        sol = r["sol"]
+        if len(set(sol)) != len(sol) or any(i >= n for i in sol):
+            ctx.fail(fn, "indices_not_distinct", f"selection {sol} has repeated or out-of-range indices", rep)
+        else:
+            ctx.fail(fn, "over_capacity", f"selection {sol} weighs {sel_w} > capacity {frac(case['capacity'])} "
+                     "(float tolerance included; verified checker chkSel)", rep)
+    obj = core.unrat(r["objective"])
+    if all(exact(x) for x in case["values"]):
+        if obj != sel_v:
+            ctx.fail(fn, "objective_mismatch", f"objective {obj} != sum of selected values {sel_v}", rep)
+    elif abs(obj - sel_v) > Fraction(1, 10**9) * max(1, abs(sel_v)):
+        ctx.fail(fn, "objective_mismatch", f"objective {float(obj)} differs from {sel_v} by more than 1e-9", rep)
+    if (r["status"], r["sol"], obj) != ("FEASIBLE", m_sel, unbits(m_objbits)):
+        ctx.tdiv(fn, {"case": case, "impl": r, "mirror": {"sel": m_sel, "objective": str(unbits(m_objbits))}})
+    else:
+        ctx.count("r_trace_agree")
+    W = [frac(x) for x in case["weights"]]
+    ctx.case(canon, n >= 2 and sum(W, Fraction(0)) > frac(case["capacity"]), None)
+
+
+def judge_intcap(ctx, case, out, reply):
+    """`_to_int_capacity` / `_scaled`: pure float code, R_trace only"""
+    fn = "_to_int_capacity"
+    if out[0] == "ok" and out[1].get("unavailable"):
+        ctx.count("intcap:unavailable")
+        return
+    ctx.count("intcap:cases")
+    if out[0] != "ok":
+        ctx.tdiv(fn, {"case": case, "impl": out, "mirror": reply})
+        return
+    r = out[1]
+    m_ic, m_scale, m_scaled = reply
+    if (r["int_cap"], r["scale"], [[a, bool(b)] for a, b in r["scaled"]]) != (m_ic, m_scale, m_scaled):
+        ctx.tdiv(fn, {"case": case, "impl": r, "mirror": reply})
+    else:
+        ctx.count("r_trace_agree")
+    ctx.case(["i", case["weights"], case["capacity"]], False)
+
+
+JUDGES = {"knapsack": judge_knap, "binpack": judge_pack, "fallback": judge_fallback, "intcap": judge_intcap}
+
+
 def judge(ctx, case, out, reply):
-    (judge_knap if case["fn"] == "knapsack" else judge_pack)(ctx, case, out, reply)
+    JUDGES[case["fn"]](ctx, case, out, reply)
 
 
 def evaluate(cases):
@@ -599,7 +704,9 @@ class Collect:
 def smaller(case):
     """candidate simplifications, most drastic first"""
     out = []
-    if case["fn"] == "knapsack":
+    if case["fn"] == "intcap":
+        return out
+    if case["fn"] in ("knapsack", "fallback"):
         n = min(len(case["values"]), len(case["weights"]))
         if len(case["values"]) == len(case["weights"]):
             for i in range(n):
@@ -687,8 +794,12 @@ def run(ctx, budget):
     n = 1200 * budget
     big = ctx.tier == "thorough"
     for i in range(n):
-        cases.append(gen_knap(ctx.rng, big and i % 4 == 0))
+        k = gen_knap(ctx.rng, big and i % 4 == 0)
+        cases.append(k)
         cases.append(gen_pack(ctx.rng, big and i % 4 == 0))
+        if i % 3 == 0 and knap_valid(k) and k["values"]:   # the helpers named in the property's anchors, directly
+            cases.append(dict(k, fn="fallback"))
+            cases.append({"fn": "intcap", "weights": k["weights"], "capacity": k["capacity"]})
     run_cases(ctx, cases)
 
 
